@@ -169,7 +169,7 @@ func (g *Gen) apply(live []*Rec) Op {
 		op.ID, cl = hx(poolIDs[g.pick(len(poolIDs))]), cl+"id-given,"
 	case s < 76 && len(live) > 0:
 		op.ID, cl = hx(live[g.pick(len(live))].ID), cl+"id-existing,"
-	case s < 84 && len(live) > 0:
+	case s < 84 && len(live) > 0 && g.s.hostile:
 		n := 1 + g.pick(3)
 		op.ID, cl = hx(sha(live[g.pick(len(live))].ID, n)), cl+fmt.Sprintf("id-alias-h%d,", n)
 	case s < 88:
@@ -192,7 +192,7 @@ func (g *Gen) apply(live []*Rec) Op {
 		op.Account, cl = hx(live[g.pick(len(live))].Account), cl+"acc-used"
 	case s < 91:
 		op.Account, cl = hx(shortAcc), cl+"acc-short"
-	case s < 94:
+	case s < 94 && g.s.hostile:
 		op.Account, cl = hx(phantomAccs[g.pick(len(phantomAccs))]), cl+"acc-json"
 	default:
 		op.Account, cl = "", cl+"acc-default"
@@ -370,7 +370,7 @@ func (g *Gen) change(live, owned []*Rec) Op {
 		op.Account, cl = "", cl+"to-empty"
 	case s < 88:
 		op.Account, cl = hx(shortAcc), cl+"to-short"
-	case s < 91:
+	case s < 91 && g.s.hostile:
 		op.Account, cl = hx(phantomAccs[g.pick(len(phantomAccs))]), cl+"to-json"
 	default:
 		op.Account, cl = hx(keys[g.pick(len(keys))].Addr.Bytes()), cl+"to-some-key"
